@@ -162,7 +162,7 @@ _MMAP = re.compile(r"mmap\(NULL, (\d+),.*MAP_ANONYMOUS")
 
 
 def serve_bytes(data, root, strace=False):
-    cmd = f"ulimit -v 600000; exec timeout 20 '{CFG['copia']}' serve '{root}'"
+    cmd = f"ulimit -v 600000; exec timeout 8 '{CFG['copia']}' serve '{root}'"
     tr = os.path.join(CFG["dir"], "strace.out")
     if strace:
         cmd = f"ulimit -v 600000; exec timeout 30 strace -f -o '{tr}' -e trace=mmap,mremap '{CFG['copia']}' serve '{root}'"
